@@ -267,7 +267,9 @@ def run_case(case):
         # a prediction over a gap of 2e-8 runs through a Taylor preconditioner of 1e-35: its covariance keeps ~5 digits at
         # nu = 4 in either route (measured 2e-5 between the two); means are unaffected
         gap_here = float(t - max([e for e in grid_es if e < t] + [B[jx - 1]]))  # previous node: step end or previous checkpoint
-        tol_og = (1e-4 if (nu >= 4 and gap_here < 1e-5) else (1e-6 if nu <= 3 else 1e-5))  # two float64 runs (fixed-interval vs fixed-point): measured <= 3e-7 (nu <= 3), 1.4e-6 (nu = 4)
+        # calibrated runs at nu >= 4: the scale estimate is a mean over whitened residuals that are partly rounding noise; the
+        # eager recorded run and the jitted save-every-step run round differently (measured 2e-5 on the covariance, MLE, nu = 4)
+        tol_og = (1e-4 if (nu >= 4 and (gap_here < 1e-5 or cal != "solver")) else (1e-6 if nu <= 3 else 1e-5))  # two float64 runs (fixed-interval vs fixed-point): measured <= 3e-7 (nu <= 3), 1.4e-6 (nu = 4)
         if not (em <= tol_og and ec <= tol_og):
             viols.append(util.viol("offgrid_marginals", f"offgrid_marginals(t={t}) of the save-every-step run differs from the checkpoint value ({em:.3g}/{ec:.3g})", tags=tags))
             break
